@@ -342,6 +342,9 @@ class Bounds:
             return None
         if k == "deref":
             return self.ub(e[1], seen, depth + 1, at)
+        if k == "ref":
+            # only ever reached below a deref (`*p` with p = &mut x, e.g. a folded helper's parameter): bound of the referent
+            return self.ub(e[1], seen, depth + 1, at)
         if k == "index":
             # an element of a table: bounded by everything that is ever stored into the table
             return self.elem_ub(e[1], depth + 1)
@@ -372,6 +375,15 @@ class Bounds:
             if e[1] in seen:
                 return CYC
             bs = []
+            for d in self.ptr_stores(e[1]):
+                # the local is also written through `&mut` pointers taken in this body (a folded helper's out-parameter)
+                if d is None:
+                    return None
+                b = self.ub(d, seen | {e[1]}, depth + 1, None)
+                if b is None:
+                    return None
+                if b != CYC:
+                    bs.append(b)
             for _, _, d in self.fn.def_exprs(e[1], at=at):
                 b = self.ub(d, seen | {e[1]}, depth + 1, at)
                 if b is None:
@@ -386,6 +398,59 @@ class Bounds:
                 return b
             return self.arg_bound(e[1], depth)
         return None
+
+    def ptr_stores(self, l):
+        """Values stored into local `l` through mutable pointers to it taken in this body: expressions, or None for a
+        pointer that escapes into a call (what the callee stores is not visible here)."""
+        cache = self.__dict__.setdefault("_ptr_stores", {})
+        if l in cache:
+            return cache[l]
+        fn = self.fn
+        ptrs = set()
+        for bi in sorted(fn.live):
+            for s_ in fn.blocks[bi]["stmts"]:
+                if s_.get("k") != "assign":
+                    continue
+                rv = s_["rv"]
+                tgt = rv.get("ref") if rv.get("mut") else None
+                if tgt is None and rv.get("mut"):
+                    tgt = rv.get("rawptr")
+                if isinstance(tgt, dict) and tgt.get("l") == l and not tgt.get("p") and not s_["lhs"].get("p"):
+                    ptrs.add(s_["lhs"]["l"])
+        out = []
+        if ptrs:
+            # copies / reborrows of the pointers
+            changed = True
+            while changed:
+                changed = False
+                for bi in sorted(fn.live):
+                    for s_ in fn.blocks[bi]["stmts"]:
+                        if s_.get("k") != "assign" or s_["lhs"].get("p") or s_["lhs"]["l"] in ptrs:
+                            continue
+                        rv = s_["rv"]
+                        src = None
+                        if "use" in rv and isinstance(rv["use"], dict):
+                            pl = rv["use"].get("place") or rv["use"].get("copy") or rv["use"].get("move")
+                            if isinstance(pl, dict) and not pl.get("p"):
+                                src = pl.get("l")
+                        tgt = rv.get("ref") or rv.get("rawptr")
+                        if isinstance(tgt, dict) and [x for x in tgt.get("p", []) if x != "deref" and x != {"k": "deref"}] == [] and tgt.get("p"):
+                            src = tgt.get("l")
+                        if src in ptrs:
+                            ptrs.add(s_["lhs"]["l"])
+                            changed = True
+            for bi in sorted(fn.live):
+                for s_ in fn.blocks[bi]["stmts"]:
+                    if s_.get("k") == "assign" and s_["lhs"]["l"] in ptrs and s_["lhs"].get("p"):
+                        out.append(fn.expr_of_rvalue(s_["rv"], 0, None, None))
+                t = fn.blocks[bi]["term"]
+                if t["k"] == "call":
+                    for a in t["args"]:
+                        pl = a.get("place") or a.get("copy") or a.get("move") if isinstance(a, dict) else None
+                        if isinstance(pl, dict) and pl.get("l") in ptrs:
+                            out.append(None)
+        cache[l] = out
+        return out
 
     def elem_ub(self, e, depth):
         """Upper bound of every element reachable inside the aggregate value `e` (an array, possibly wrapped in structs /
